@@ -110,6 +110,75 @@ def r6_identity(ctx, steps=None, rule='R6c'):
     return n
 
 
+def _identity_rows_callee(ctx, call, param, cls):
+    """Is `call` = super().process_resource(param) resolving to a base implementation that re-yields every row through an
+    un-overridden identity process_row?"""
+    if not (isinstance(call, ast.Call) and call.args and isinstance(call.args[0], ast.Name) and call.args[0].id == param):
+        return False
+    tg = [t for t in ctx.res.resolve_call(call) if isinstance(t, FuncInfo)]
+    if len(tg) != 1 or tg[0].name != 'process_resource':
+        return False
+    base = tg[0]
+    from sa.model import row_loops, rowloop_signature
+    rls = row_loops(base)
+    if len(rls) != 1:
+        return False
+    loop, var, src = rls[0]
+    sigs = rowloop_signature(base, loop, var)
+    for s_ in sigs:
+        if len(s_.yields) != 1:
+            return False
+        y = s_.yields[0][1]
+        v = y.value
+        if isinstance(v, ast.Name) and v.id == var:
+            continue
+        if isinstance(v, ast.Call) and isinstance(v.func, ast.Attribute) and v.func.attr == 'process_row' and \
+                v.args and isinstance(v.args[0], ast.Name) and v.args[0].id == var:
+            pr = ctx.res.lookup_method(cls, 'process_row') if cls is not None else None
+            if pr is None:
+                return False
+            rets = [n for n in own_nodes(pr.node) if isinstance(n, ast.Return)]
+            if not (len(rets) == 1 and isinstance(rets[0].value, ast.Name) and rets[0].value.id == pr.params[1]
+                    and len(pr.node.body) == 1):
+                return False
+            continue
+        return False
+    return True
+
+
+def r6_identity_rows(ctx, funcs, rule='R6c'):
+    """Rows-level steps (one resource in, rows out): on every path where the selector does not match, the function yields
+    exactly `yield from <the resource>` (or the base class pass-through) and nothing else."""
+    run = ctx.run
+    n = 0
+    for fi, param in funcs:
+        at = Atomizer(ctx.repo, ctx.res, fi, param, 'stream', scope_node=fi.node)
+        en = Enumerator(where=fi.qualname, relevant=lambda x: isinstance(x, (ast.Yield, ast.YieldFrom)))
+        cls = ctx.repo.enclosing_class(fi.node)
+        found = False
+        for p in en.paths(fi.node.body):
+            val = at.path_atoms(p)
+            if val is None or val.get(('MATCH',)) is not False:
+                continue
+            found = True
+            n += 1
+            ys = [x for x in path_nodes(p, into_loops=True) if isinstance(x, (ast.Yield, ast.YieldFrom))]
+            ok = len(ys) == 1 and isinstance(ys[0], ast.YieldFrom) and (
+                (isinstance(ys[0].value, ast.Name) and ys[0].value.id == param) or
+                _identity_rows_callee(ctx, ys[0].value, param, cls))
+            stores = [x for x in path_nodes(p, into_loops=True)
+                      if isinstance(x, (ast.Assign, ast.AugAssign)) and
+                      any(isinstance(t, (ast.Subscript, ast.Attribute)) and base_name(t) == param
+                          for t in (x.targets if isinstance(x, ast.Assign) else [x.target]))]
+            run.check(ok and not stores and p.term in (FALL, RETURN), rule, where(ctx.repo, ys[0]) if ys else fi.where,
+                      fi.qualname, fmt_atoms(val),
+                      'rows of a resource the step does not select must pass through unchanged '
+                      '(`yield from %s` only); found %s' % (param, [u(y) for y in ys]), path=p.describe())
+        run.check(found, rule, fi.where, fi.qualname, 'unmatched path exists',
+                  'no path handles resources the selector does not match')
+    return n
+
+
 # ---------------------------------------------------------------------- R6 (b) count agreement
 
 def _resources_subscript(node):
@@ -357,7 +426,7 @@ def _alias_closure(f, root):
     changed = True
     while changed:
         changed = False
-        for nm, vals in facts.defs.items():
+        for nm, vals in facts.assigns.items():
             if nm in names:
                 continue
             for v in vals:
